@@ -5,7 +5,7 @@ import (
 	"strings"
 )
 
-const c05Rule = "keyword sets of 1..8 keywords over an 8-rune alphabet (a b c space 日 é x y; overlapping, nested, prefix/suffix chains, duplicates, keywords containing the separator, 1..3-byte runes), query texts of 0..12 runes given as a string, a []string or a []interface{} of 1..3 texts (joined by one space); half of the cases over TWO pattern fields sharing one keyword set; one document per keyword (validates the automaton against substring semantics) and the separator corner (list assignments with empty parts, keywords beginning / ending with / consisting of the separator), texts containing several different keywords, and mixed documents (pattern include/exclude combined with default fields in one conjunction) on the k-groups, compact and roaring indexes. cached builds (cold, then served from a shared cache provider by fresh builders) of conjunctions mixing a short keyword list with a long ordinary expression; Non-trivial = some query returns a non-empty proper subset of the documents; distinct = distinct input"
+const c05Rule = "keyword sets of 1..8 keywords over an 8-rune alphabet (a b c space 日 é x y; overlapping, nested, prefix/suffix chains, duplicates, keywords containing the separator, 1..3-byte runes), query texts of 0..12 runes given as a string, a []string or a []interface{} of 1..3 texts (joined by one space); half of the cases over TWO pattern fields sharing one keyword set; one document per keyword (validates the automaton against substring semantics) and the separator corner (list assignments with empty parts, keywords beginning / ending with / consisting of the separator), texts containing several different keywords, and mixed documents (pattern include/exclude combined with default fields in one conjunction) on the k-groups, compact and roaring indexes. cached builds (cold, then served from a shared cache provider by fresh builders) of conjunctions mixing a short keyword list with a long ordinary expression; pattern holders whose different keyword sets coincide once sorted and joined by a space (two size groups, two fields); Non-trivial = some query returns a non-empty proper subset of the documents; distinct = distinct input"
 
 var acAlphabet = []string{"a", "b", "c", " ", "日", "é", "x", "ab"}
 
@@ -277,6 +277,7 @@ func init() {
 			acAllMultibyte(add)
 			acRebuildCases(add)
 			acCachedCases(add)
+			acJoinedDictionaries(add)
 			for i := 0; i < n; i++ {
 				acTwoPatternFields = i%4 == 1 || i%4 == 3 // two pattern fields: each must keep its own keywords
 				docs, qs := acDocsQueries(r, i%2 == 0)
@@ -360,5 +361,41 @@ func acCachedCases(add func(in interface{})) {
 		}
 		add(cacheIn{Cache: true, Case: c, Thr: 2, Seed: 91, MissPct: 0, DropPct: 0})
 		add(cacheIn{Cache: true, Case: c, Thr: 2, Seed: 92, MissPct: 30, DropPct: 0, Retain: true})
+	}
+}
+
+// acJoinedDictionaries: several pattern holders in one process (two size groups of one field; two pattern fields;
+// both index kinds one after the other) whose DIFFERENT keyword sets are equal in number and read the same once
+// sorted and joined by a space -- each holder must match with its own keywords
+func acJoinedDictionaries(add func(in interface{})) {
+	kw := func(f int, inc bool, ss ...string) eExpr {
+		l := make([]TV, len(ss))
+		for i, s := range ss {
+			l[i] = tvStr(s)
+		}
+		return eExpr{F: f, Inc: inc, V: tvSlice("[]string", l...)}
+	}
+	txt := func(f int, s string) eAssign { return eAssign{F: f, V: tvStr(s)} }
+	for _, kind := range []string{"kgroups", "compact"} {
+		a := eCase{Kind: kind, Policy: "error", Configs: map[int]string{1: "ac_matcher"}}
+		a.Docs = []eDoc{
+			{ID: 1, Cons: []eConj{{kw(1, true, "big sale", "today")}}},
+			{ID: 2, Cons: []eConj{{{F: 0, Inc: true, V: tvSlice("[]int", tvInt("int", 7))}, kw(1, true, "big", "sale today")}}},
+			{ID: 3, Cons: []eConj{{{F: 0, Inc: true, V: tvSlice("[]int", tvInt("int", 7))}, {F: 3, Inc: true, V: tvStr("x")}, kw(1, false, "big sale today")}}},
+		}
+		for _, t := range []string{"a big house", "sale today only", "big sale", "today", "big sale today", "bigsale", "none"} {
+			a.Queries = append(a.Queries, eQuery{A: []eAssign{{F: 0, V: tvInt("int", 7)}, txt(1, t)}}, eQuery{A: []eAssign{txt(1, t)}}, eQuery{A: []eAssign{{F: 0, V: tvInt("int", 7)}, txt(1, t), txt(3, "x")}})
+		}
+		add(a)
+		b := eCase{Kind: kind, Policy: "error", Configs: map[int]string{1: "ac_matcher", 2: "ac_matcher"}}
+		b.Docs = []eDoc{
+			{ID: 1, Cons: []eConj{{kw(1, true, "new york", "times")}}},
+			{ID: 2, Cons: []eConj{{kw(2, true, "new", "york times")}}},
+			{ID: 3, Cons: []eConj{{kw(1, false, "times"), kw(2, true, "york times")}}},
+		}
+		for _, q := range [][2]string{{"hard times", "brand new"}, {"new york", "york times"}, {"new", "times"}, {"york times", "new york"}, {"", "new"}, {"times", ""}} {
+			b.Queries = append(b.Queries, eQuery{A: []eAssign{txt(1, q[0]), txt(2, q[1])}}, eQuery{A: []eAssign{txt(1, q[0])}}, eQuery{A: []eAssign{txt(2, q[1])}})
+		}
+		add(b)
 	}
 }
